@@ -11,9 +11,19 @@ Mirrors, as the code IS (every decision is taken through the regenerated
                     parseTelemetryConfig  if v.IsSet(k) { config.Telemetry.Enabled = v.GetBool(k) }
   viper             find(k): AutomaticEnv ⇒ os.LookupEnv(replacer(upper(prefix_k))) (non-empty) before the
                     config file; GetBool = cast.ToBool (strconv.ParseBool, error ⇒ false)
-  server/server.go  Start: if s.config.Telemetry.Enabled { s.telemetry = telemetry.New(&Config{Enabled: true,…}) }
+  server/server.go  Start: if s.config.Telemetry.Enabled {            (createGuarded)
+                             cfg := &telemetry.Config{Enabled: true,  (argEnabled)
+                                      Interval: time.Duration(s.config.Telemetry.IntervalSeconds) * time.Second,
+                                      DataDir: s.config.DataDir}
+                             s.telemetry, err = telemetry.New(cfg, Version, logger)   -- error: warning only, s.telemetry stays nil
+                           }
                            if s.telemetry != nil { s.telemetry.Start() }
-  telemetry.go      Start: if !c.config.Enabled { return }; go run()  — run: one beacon, then one per tick
+  telemetry.go      New:   if cfg == nil { cfg = DefaultConfig() }    (newSteps: EVERY guarded block that writes to cfg)
+                           instanceID, err := loadOrCreateInstanceID(cfg.DataDir); if err != nil { return nil, err }
+                           &Collector{config: cfg, instanceID: instanceID, …}
+                    loadOrCreateInstanceID: every syntactic path to a return (idPaths), first match
+                    Start: if !c.config.Enabled { return }; go run()
+                    run:   one beacon; time.NewTicker(c.config.Interval) (panics when ≤ 0); one beacon per tick
 
 `Facts` is a parameter of every definition so that theorems can be stated for ANY shape of
 the code (`∀ F`) and then instantiated with the regenerated one.
@@ -23,6 +33,7 @@ kernel does not reduce `String` primitives.
 import Liftbridge.Gen.Telemetry
 
 namespace Liftbridge.TelemetryCfg
+open Liftbridge.TelemetryTypes
 
 /-- The shape of the Go code that matters for C19 (regenerated: `genFacts`). -/
 structure Facts where
@@ -46,11 +57,25 @@ structure Facts where
   fileEnv : Bool
   /-- `telemetry.New` only inside `if s.config.Telemetry.Enabled` -/
   createGuarded : Bool
-  /-- `telemetry.Config{Enabled: s.config.Telemetry.Enabled}` (false: the literal `true`) -/
-  cfgCopies : Bool
+  /-- `telemetry.Config{Enabled: …}` in `Server.Start`: `.keep` = `s.config.Telemetry.Enabled` -/
+  argEnabled : Src Bool
+  /-- `if s.telemetry != nil { s.telemetry.Start() }` (false: the nil check is missing) -/
+  startNilGuard : Bool
   /-- `Collector.Start` returns immediately when `!c.config.Enabled` -/
   startChecks : Bool
-  deriving Repr, DecidableEq
+  /-- `DefaultConfig().Enabled` -/
+  dfltEnabled : Bool
+  /-- `DefaultConfig().Interval` (ns) -/
+  dfltInterval : Int
+  /-- `DefaultConfig().DataDir` -/
+  dfltDataDir : String
+  /-- `telemetry.New`: the guarded blocks that write to its `*Config` parameter, in order -/
+  newSteps : List Rewrite
+  /-- `loadOrCreateInstanceID`: every syntactic path to a return -/
+  idPaths : List IdPath
+  /-- `len(data) > 0` in `loadOrCreateInstanceID` -/
+  idLenGuard : Cmp
+  deriving Repr
 
 /-- The facts of the working tree, regenerated on every run. -/
 def genFacts : Facts where
@@ -64,8 +89,15 @@ def genFacts : Facts where
   fileParses := Gen.Telemetry.fileParsesTelemetry
   fileEnv := Gen.Telemetry.fileEnvActive
   createGuarded := Gen.Telemetry.createGuarded
-  cfgCopies := Gen.Telemetry.collectorCfgCopiesEnabled
+  argEnabled := Gen.Telemetry.startArgEnabled
+  startNilGuard := Gen.Telemetry.startNilGuard
   startChecks := Gen.Telemetry.startChecksEnabled
+  dfltEnabled := Gen.Telemetry.dfltEnabled
+  dfltInterval := Gen.Telemetry.dfltIntervalNs
+  dfltDataDir := Gen.Telemetry.dfltDataDir
+  newSteps := Gen.Telemetry.newSteps
+  idPaths := Gen.Telemetry.idPaths
+  idLenGuard := Gen.Telemetry.idLenGuard
 
 /-- The facts of the tree BEFORE the repair `fixes/C19-telemetry-env-ignored.diff`
 (commit 344a871): no env key replacer, and an early return without a config file that
@@ -81,8 +113,20 @@ def unfixedFacts : Facts where
   fileParses := true
   fileEnv := true
   createGuarded := true
-  cfgCopies := false
+  argEnabled := .lit true
+  startNilGuard := true
   startChecks := true
+  dfltEnabled := true
+  dfltInterval := 86400000000000
+  dfltDataDir := "./data"
+  newSteps := [{ guard := .isNil true, enabled := .dflt, interval := .dflt, dataDir := .dflt }]
+  idPaths := [
+    { conds := [.op .mkdir false], out := .err },
+    { conds := [.op .mkdir true, .fileUsable true], out := .file },
+    { conds := [.op .mkdir true, .fileUsable false, .op .rand false], out := .err },
+    { conds := [.op .mkdir true, .fileUsable false, .op .rand true, .op .write false], out := .err },
+    { conds := [.op .mkdir true, .fileUsable false, .op .rand true, .op .write true], out := .fresh }]
+  idLenGuard := .gt
 
 /-- One configuration = what each route says (`none` = the route is silent). -/
 structure Cfg where
@@ -132,17 +176,171 @@ def enabled (F : Facts) (c : Cfg) : Bool :=
   | some b => b
   | none => afterNewConfig F c
 
-/-- `s.telemetry != nil` after the initialisation block of `Server.Start`. -/
-def collectorCreated (F : Facts) (c : Cfg) : Bool := if F.createGuarded then enabled F c else true
-/-- `c.config.Enabled` of the created collector. -/
-def collectorFlag (F : Facts) (c : Cfg) : Bool := if F.cfgCopies then enabled F c else true
-/-- The goroutine `run` is started. -/
-def sends (F : Facts) (c : Cfg) : Bool :=
-  collectorCreated F c && (if F.startChecks then collectorFlag F c else true)
+/-! ### `telemetry.Config`, `telemetry.New`, `loadOrCreateInstanceID` -/
 
-/-- Number of HTTP requests issued up to the `ticks`-th expiry of the interval timer
-(`run`: one initial beacon, then one per tick); 0 when `run` is never started. -/
-def requests (F : Facts) (c : Cfg) (ticks : Nat) : Nat := if sends F c then 1 + ticks else 0
+/-- `telemetry.Config`. -/
+structure TCfg where
+  enabled : Bool
+  /-- `time.Duration`: nanoseconds -/
+  interval : Int
+  dataDir : String
+  deriving Repr
+
+/-- `DefaultConfig()`. -/
+def dfltCfg (F : Facts) : TCfg := ⟨F.dfltEnabled, F.dfltInterval, F.dfltDataDir⟩
+
+/-- Value of a field after a rewrite. `.unknown` (the extractor did not understand the
+assignment — also reported `lost`) is resolved to the given worst case. -/
+def srcEval {α : Type} (s : Src α) (cur dflt worst : α) : α :=
+  match s with
+  | .keep => cur
+  | .dflt => dflt
+  | .lit v => v
+  | .unknown => worst
+
+/-- Does the condition hold for the current value of `cfg` (`none` = nil)? A field test on a
+nil pointer would panic; no caller passes nil and a field test, so it is read as "does not
+hold". `.unknown` (reported `lost`) is assumed to hold. -/
+def guardHolds (g : Guard) (c : Option TCfg) : Bool :=
+  match g, c with
+  | .always, _ => true
+  | .unknown, _ => true
+  | .isNil b, c => c.isNone == b
+  | .interval op k, some c => op.evalInt c.interval k
+  | .enabled b, some c => c.enabled == b
+  | _, none => false
+
+/-- One guarded block of `New`. Worst case for an assignment that was not understood:
+Enabled becomes true, the interval stays positive (the collector keeps reporting). Writing
+a single field through a nil pointer would panic; it is read as "starting from
+`DefaultConfig()`" (no caller passes nil to such a block). -/
+def applyRewrite (F : Facts) (c : Option TCfg) (r : Rewrite) : Option TCfg :=
+  if guardHolds r.guard c then
+    let cur := c.getD (dfltCfg F)
+    some { enabled := srcEval r.enabled cur.enabled F.dfltEnabled true
+           interval := srcEval r.interval cur.interval F.dfltInterval 1
+           dataDir := srcEval r.dataDir cur.dataDir F.dfltDataDir cur.dataDir }
+  else c
+
+/-- The `*Config` the collector ends up with, given `New`'s argument (`none` = nil). -/
+def newCfg (F : Facts) (arg : Option TCfg) : Option TCfg := F.newSteps.foldl (applyRewrite F) arg
+
+/-- What `loadOrCreateInstanceID` finds in the data directory it is given. -/
+structure IdEnv where
+  /-- `os.MkdirAll(dataDir)` succeeds -/
+  mkdirOk : Bool
+  /-- `os.ReadFile(<dataDir>/.instance_id)`: `some bytes` = success -/
+  file : Option (List Char)
+  /-- `crypto/rand.Read` succeeds -/
+  randOk : Bool
+  /-- `os.WriteFile(<dataDir>/.instance_id)` succeeds -/
+  writeOk : Bool
+  /-- truth value of every condition the extractor does not understand -/
+  other : Bool
+  deriving Repr
+
+/-- `err == nil && len(data) > 0` (the comparison is regenerated). -/
+def fileUsable (F : Facts) (e : IdEnv) : Bool :=
+  match e.file with
+  | some d => F.idLenGuard.evalNat d.length 0
+  | none => false
+
+def opOk (e : IdEnv) : IdOp → Bool
+  | .mkdir => e.mkdirOk
+  | .read => e.file.isSome
+  | .rand => e.randOk
+  | .write => e.writeOk
+
+def condHolds (F : Facts) (e : IdEnv) : IdCond → Bool
+  | .op o ok => opOk e o == ok
+  | .fileUsable b => fileUsable F e == b
+  | .other _ b => e.other == b
+
+/-- The path `loadOrCreateInstanceID` takes. -/
+def idPathTaken (F : Facts) (e : IdEnv) : Option IdPath :=
+  F.idPaths.find? fun p => p.conds.all (condHolds F e)
+
+/-- Result of `loadOrCreateInstanceID`: `.err` also when no path matches (cannot happen: the
+extractor enumerates both branches of every `if`). -/
+def loadOrCreate (F : Facts) (e : IdEnv) : IdOut :=
+  match idPathTaken F e with
+  | some p => p.out
+  | none => .err
+
+def idIsErr : IdOut → Bool
+  | .err => true
+  | _ => false
+
+/-- A collector as `New` builds it. -/
+structure Collector where
+  cfg : TCfg
+  /-- origin of `instanceID` (never `.err`) -/
+  id : IdOut
+  deriving Repr
+
+/-- `telemetry.New(arg, …)` with `fs` = what the file system holds under each data
+directory: `none` = `(nil, err)` (also for the nil dereference when `arg` is nil and no
+block of `New` replaces it). -/
+def newCollector (F : Facts) (arg : Option TCfg) (fs : String → IdEnv) : Option Collector :=
+  match newCfg F arg with
+  | none => none
+  | some c =>
+    let id := loadOrCreate F (fs c.dataDir)
+    if idIsErr id then none else some ⟨c, id⟩
+
+/-- `Collector.Start` starts the goroutine `run`. -/
+def collectorRuns (F : Facts) (k : Collector) : Bool := if F.startChecks then k.cfg.enabled else true
+
+/-- Requests of a collector whose `run` was started, up to the `ticks`-th expiry of the
+interval timer: the initial beacon, then `time.NewTicker(interval)` — which panics for a
+non-positive interval (the process dies after one request) — then one request per tick. -/
+def runRequests (k : Collector) (ticks : Nat) : Nat := if k.cfg.interval > 0 then 1 + ticks else 1
+
+/-- `telemetry.New(arg)` followed by `Start()`: requests made (collector level, for direct
+users of package telemetry). -/
+def collectorRequests (F : Facts) (arg : Option TCfg) (fs : String → IdEnv) (ticks : Nat) : Nat :=
+  match newCollector F arg fs with
+  | none => 0
+  | some k => if collectorRuns F k then runRequests k ticks else 0
+
+/-! ### `Server.Start` -/
+
+/-- What `Server.Start` sees: the switch, `Telemetry.IntervalSeconds`, `DataDir`. -/
+structure Run where
+  enabled : Bool
+  intervalSeconds : Int
+  dataDir : String
+  deriving Repr
+
+/-- The `*telemetry.Config` handed to `New`; `none` = `New` is not called. The interval is
+`time.Duration(seconds) * time.Second` (64-bit wrap-around not modelled). -/
+def startArg (F : Facts) (r : Run) : Option TCfg :=
+  if F.createGuarded && !r.enabled then none
+  else some { enabled := srcEval F.argEnabled r.enabled F.dfltEnabled true
+              interval := r.intervalSeconds * 1000000000
+              dataDir := r.dataDir }
+
+/-- `s.telemetry` after the initialisation block (`none` = nil: not created, or `New` failed
+and only a warning is logged). -/
+def serverCollector (F : Facts) (r : Run) (fs : String → IdEnv) : Option Collector :=
+  match startArg F r with
+  | none => none
+  | some a => newCollector F (some a) fs
+
+/-- Requests of a started server. A missing nil guard around `s.telemetry.Start()` is a nil
+dereference (panic), not a request. -/
+def serverRequests (F : Facts) (r : Run) (fs : String → IdEnv) (ticks : Nat) : Nat :=
+  match serverCollector F r fs with
+  | none => 0
+  | some k => if collectorRuns F k then runRequests k ticks else 0
+
+/-- A file system where the id can always be loaded or created. -/
+def fsOk : String → IdEnv := fun _ => ⟨true, none, true, true, false⟩
+
+/-- Number of HTTP requests a server configured by `c` issues up to the `ticks`-th expiry
+of the interval timer, for interval `iv` (seconds), data dir `dir`, file system `fs`. -/
+def requests (F : Facts) (c : Cfg) (iv : Int) (dir : String) (fs : String → IdEnv) (ticks : Nat) : Nat :=
+  serverRequests F ⟨enabled F c, iv, dir⟩ fs ticks
 
 /-- The highest-precedence route that says anything says "off":
 programmatic > environment > config file (documentation/configuration.md:106-110 for
@@ -154,13 +352,75 @@ def effectiveOff (c : Cfg) : Prop :=
 
 instance (c : Cfg) : Decidable (effectiveOff c) := by unfold effectiveOff; exact inferInstance
 
-/-- The server-side gate: a disabled configuration never reaches `run`. -/
-def serverGates (F : Facts) : Prop := F.createGuarded = true ∨ (F.cfgCopies = true ∧ F.startChecks = true)
+/-- A block of `New` that cannot turn a disabled config into an enabled one: it is only
+entered for nil / for an enabled config, or it leaves `Enabled` alone, or sets it to false. -/
+def rewriteKeepsOff (dfltEnabled : Bool) (r : Rewrite) : Bool :=
+  match r.guard with
+  | .isNil true => true
+  | .enabled true => true
+  | _ =>
+    match r.enabled with
+    | .keep => true
+    | .lit b => !b
+    | .dflt => !dfltEnabled
+    | .unknown => false
+
+/-- `telemetry.New` never loses an `Enabled: false` of a non-nil argument. -/
+def newKeepsOff (F : Facts) : Bool := F.newSteps.all (rewriteKeepsOff F.dfltEnabled)
+
+/-- `Server.Start` hands the switch on: copies it, or says `false`. -/
+def argKeepsOff (F : Facts) : Bool :=
+  match F.argEnabled with
+  | .keep => true
+  | .lit b => !b
+  | .dflt => !F.dfltEnabled
+  | .unknown => false
+
+/-- The collector-side gate: `New` keeps `Enabled: false` and `Start` looks at it. -/
+def collectorGates (F : Facts) : Prop := newKeepsOff F = true ∧ F.startChecks = true
+
+/-- The server-side gate: a disabled configuration never reaches `run` — the collector is
+not even created, or the switch is handed on to a collector that honours it. -/
+def serverGates (F : Facts) : Prop :=
+  F.createGuarded = true ∨ (argKeepsOff F = true ∧ collectorGates F)
+
+/-! ### Origin of the instance id -/
+
+def condIsOpOk (o : IdOp) : IdCond → Bool
+  | .op o' true => o == o'
+  | _ => false
+
+def condIsFileUsable : IdCond → Bool
+  | .fileUsable true => true
+  | _ => false
+
+/-- A path of `loadOrCreateInstanceID` that respects "the id is the content of the id file
+or a fresh random UUID" (what C19 demands): it returns an error, or the file content on a
+path where the file was usable, or the fresh UUID on a path where `crypto/rand` succeeded
+— never anything else. -/
+def pathClean (p : IdPath) : Bool :=
+  match p.out with
+  | .err => true
+  | .file => p.conds.any condIsFileUsable
+  | .fresh => p.conds.any (condIsOpOk .rand)
+  | .other _ => false
+
+/-- … and, stronger (the code as it is; "persistent per installation"): a fresh UUID is only
+returned on a path where it was written to the id file. -/
+def pathPersists (p : IdPath) : Bool :=
+  pathClean p && match p.out with
+    | .fresh => p.conds.any (condIsOpOk .write)
+    | _ => true
+
+def idPathsPersist (F : Facts) : Bool := F.idPaths.all pathPersists
+
+def idPathsClean (F : Facts) : Bool := F.idPaths.all pathClean
 
 /-- The environment route is honoured on both paths of `NewConfig`. -/
 def envHonoured (F : Facts) : Prop :=
   envBinds F = true ∧ F.fileParses = true ∧ F.fileEnv = true ∧ F.noFileParses = true ∧ F.noFileEnv = true
 
+instance (F : Facts) : Decidable (collectorGates F) := by unfold collectorGates; exact inferInstance
 instance (F : Facts) : Decidable (serverGates F) := by unfold serverGates; exact inferInstance
 instance (F : Facts) : Decidable (envHonoured F) := by unfold envHonoured; exact inferInstance
 
